@@ -1,6 +1,6 @@
 """C13 -- symbol kernels are exact for every length, operand count and alignment."""
 import core
-from common import gf28_tables_header, STD_ASSUMPTIONS
+from common import gf28_tables_header, gf28_rowptr_header, STD_ASSUMPTIONS
 
 NAMES = {1: "of_add_to_symbol", 2: "of_add_from_multiple_symbols", 3: "of_add_to_multiple_symbols",
          4: "of_addmul1 (codec 1, static)", 5: "of_galois_field_2_8_addmul1",
@@ -22,6 +22,26 @@ def kq(kernel, size, count=1, offs=0, const=None):
                       flags=("--object-bits", "9"))
 
 
+def kq_rowtab(kernel, size, offs=0):
+    """GF(2^8) kernels through the row-pointer abstraction of the multiplication table
+    (harness/kernels.c ROWTAB): a filter query whose failure is decided by the exact query."""
+    exact = kq(kernel, size, 1, offs)
+    exact.timeout = 2400
+    exact.mem_gb = 10
+    p = dict(KERNEL=kernel, KSIZE=size, KCOUNT=1, KOFFS=offs, ROWTAB=1)
+    if kernel == 4:
+        defs = ('-DOPENFEC_VERIF_GF28_TABLES="%s"' % gf28_rowptr_header(),)
+        only = ONLY
+    else:
+        defs = ()
+        only = ("ONLY", "of_symbol.c", "algebra_2_4.c")          # algebra_2_8.c is compiled inside the harness
+    q = core.Query("C13", "kernels.c", p, lib_defs=defs, lib_exclude=only, unwind=max(size, 16) + 18 + 256,
+                   free_bits=2 * (size + offs) * 8 + 8 + 256 * 8, timeout=900, mem_gb=8, leak=True, flags=("--object-bits", "9"))
+    q.fallback = exact
+    q.group = "gf256-kernel-%d" % kernel
+    return q
+
+
 def build(tier):
     qs = []
     if tier == "quick":
@@ -29,7 +49,8 @@ def build(tier):
         msizes = [0, 1, 3, 4, 5, 7, 8, 9, 13, 17]
         counts = list(range(0, 10)) + [12, 16, 20]
         g4sizes = list(range(0, 41)) + [47, 48, 49, 63, 64, 65, 80]
-        g8sizes = [0, 1, 2, 8, 16, 17]
+        g8sizes = [0, 1, 2, 8]
+        g8abs = list(range(0, 41)) + [47, 48, 49, 56, 63, 64, 65]
         offs = [0]
     else:
         sizes1 = list(range(0, 41))
@@ -37,6 +58,7 @@ def build(tier):
         counts = list(range(0, 21))
         g4sizes = list(range(0, 81))
         g8sizes = list(range(0, 20)) + [24, 31, 32, 33, 40, 47, 48, 49]
+        g8abs = list(range(0, 97))
         offs = [0, 1, 3, 7]
     for o in offs:
         for s in sizes1:
@@ -58,17 +80,24 @@ def build(tier):
                 q.timeout = 600 if tier == "quick" else 2400
                 q.mem_gb = 10
                 qs.append(q)
-    qs.sort(key=lambda q: -(q.params["KSIZE"] * (50 if q.params["KERNEL"] in (4, 5) else 1)))
+    # the same two kernels through the row-pointer abstraction of the table: wide size range
+    for o in ([0] if tier == "quick" else [0, 3]):
+        for k in (4, 5):
+            for s in g8abs:
+                qs.append(kq_rowtab(k, s, o))
+    qs.sort(key=lambda q: -(q.params["KSIZE"] * ((10 if "ROWTAB" in q.params else 50) if q.params["KERNEL"] in (4, 5) else 1)))
     meta = dict(
         units=["src/lib_common/linear_binary_codes_utils/of_symbol.c", "src/lib_stable/reed-solomon_gf_2_m/galois_field_codes_utils/algebra_2_4.c",
                "src/lib_stable/reed-solomon_gf_2_m/galois_field_codes_utils/algebra_2_8.c", "src/lib_stable/reed-solomon_gf_2_8/of_reed-solomon_gf_2_8.c (of_addmul1)"],
         functions_encoded=list(NAMES.values()),
         bounds="sizes %d..%d (XOR kernels; multi-operand kernels on sizes %s), operand counts %s, GF kernels sizes %s, object offsets %s; one query per (kernel,size,count,offset); all buffer bytes and the field constant symbolic" % (
             min(sizes1), max(sizes1), msizes if len(msizes) < 12 else "0..40", counts if len(counts) < 14 else "0..20",
-            ("GF(2^4): 0..40,47..49,63..65,80; GF(2^8): %s" % g8sizes) if tier == "quick" else ("GF(2^4): 0..80; GF(2^8): %s" % g8sizes), offs),
-        outside_bounds="GF(2^8) kernels beyond their small size grid (each byte of symbol is a two-index read of a 64K table; size 33 already needs ~300 s); sizes above the grid (the loops are periodic with period 8/16 bytes; no induction); operand counts > 20; big-endian and 32-bit #if branches (not compiled in this build); hardware alignment faults (CBMC memory is byte-granular)",
+            ("GF(2^4): 0..40,47..49,63..65,80; GF(2^8) exact (real table): %s; GF(2^8) through the row-pointer abstraction of the table: 0..40,47..49,56,63..65" % g8sizes) if tier == "quick"
+            else ("GF(2^4): 0..80; GF(2^8) exact: %s; GF(2^8) through the row-pointer abstraction: 0..96" % g8sizes), offs),
+        outside_bounds="GF(2^8) kernels against the real 64K table beyond their small exact grid (proving a pointer-based and an index-based lookup of a 64K table equal costs ~10 s per byte) -- the wide size range is decided through the row-pointer abstraction plus C14's table identity; sizes above the grid (the loops are periodic with period 8/16 bytes; no induction); operand counts > 20; big-endian and 32-bit #if branches (not compiled in this build); hardware alignment faults (CBMC memory is byte-granular)",
         stubs=["GF kernels: dst lies 15 bytes inside its heap object (canary-checked) because `lim=&dst[sz-15]` is formed before the object when sz<15 and CBMC mis-evaluates that comparison (DESIGN 3.4)",
-               "codec-1 table for of_addmul1 preloaded from the native dump (C14 proves the dump)"],
+               "codec-1 table for of_addmul1 preloaded from the native dump (C14 proves the dump)",
+               "ROWTAB filter queries (GF(2^8) kernels, wide size range): the kernel's translation unit is compiled with the identifier of the 256x256 multiplication table bound to an array of 256 row pointers, all NULL except row c (c symbolic), which points to a 256-byte row of FREE solver variables; specification dst[i] ^= row[src[i]]. A pass means: for every row content the kernel reads the table only in row c at columns src[i] and combines exactly as specified, hence also for the real row (whose contents C14 proves). A failure of a filter query is never reported: the exact query (real table) of the same size decides"],
         assumptions=STD_ASSUMPTIONS + ["GF(2^4) one-element-per-byte kernel: operands are field elements (< 16), as at its only call sites (matrix inversion)"],
         exhaustive=False,
     )
